@@ -195,7 +195,10 @@ class Rig:
             rem = self.net["M"].add_node(canopen.RemoteNode(nid, build_od(spec)))
             rem.sdo.RESPONSE_TIMEOUT = 0.05
             self.local[nid], self.remote[nid] = loc, rem
-            for side, obj, mlist in (("L", loc.tpdo, node["tpdo"]), ("R", rem.rpdo, node["rpdo"])):
+            sides = [("L", loc.tpdo, node["tpdo"]), ("R", rem.rpdo, node["rpdo"])]
+            if cfg.get("both_directions"):
+                sides += [("r", rem.tpdo, node["tpdo"]), ("l", loc.rpdo, node["rpdo"])]
+            for side, obj, mlist in sides:
                 for m in mlist:
                     pm = obj[m["no"]]
                     if m["setup"] == "from_od":
@@ -544,6 +547,21 @@ def enum_disconnect():
                     if with_others:
                         ops += stops
                     yield {"family": "enum/disconnect", "mod": mod, "nodes": nodes, "ops": ops}
+    # "the PDO tasks of ALL its nodes": also the maps of the other direction of each node object
+    # (TPDO maps of a RemoteNode, RPDO maps of a LocalNode)
+    maps6 = maps + [("r", 2, 1), ("l", 2, 1), ("r", 3, 4), ("l", 3, 2)]
+    for mod in (True, False):
+        for subset in range(1, 256):
+            if bin(subset).count("1") > 3 and subset % 7:
+                continue
+            for order in (["M", "S"], ["S"], ["M"]):
+                ops = []
+                for b, (side, nid, no) in enumerate(maps6):
+                    if subset >> b & 1:
+                        ops.append({"op": "pdo_start", "side": side, "node": nid, "map": no, "p": 0.01 * (b + 1)})
+                ops += [{"op": "disconnect", "net": n} for n in order]
+                yield {"family": "enum/disconnect-both-directions", "mod": mod, "nodes": nodes,
+                       "both_directions": True, "ops": ops}
 
 
 def known_defect_cases():
